@@ -144,6 +144,13 @@ class BackendVSA(Backend):
         # Not supported
         raise BackendError
 
+    def simplify(self, expr):
+        converted = self.convert(expr)
+        if isinstance(converted, BoolResult) and BoolResult.is_maybe(converted):
+            # an undecided condition has no simpler form than itself
+            return expr
+        return self._abstract(converted)
+
     def _abstract(self, e):
         if isinstance(e, numbers.Number):
             return e
@@ -178,9 +185,10 @@ class BackendVSA(Backend):
                 )
             raise ClaripyVSAError("Cannot abstract ValueSet with multiple regions")
         if isinstance(e, BoolResult):
-            if e.is_true:
+            # (is_true / is_false are static predicates, not properties)
+            if BoolResult.is_true(e):
                 return claripy.BoolV(True)
-            if e.is_false:
+            if BoolResult.is_false(e):
                 return claripy.BoolV(False)
             return claripy.BoolS("maybe")
         raise BackendError(f"Don't know how to abstract {type(e)}")
